@@ -178,6 +178,9 @@ def evaluate(case):
     pairs = case["pairs"]
     if case.get("elements"):
         pairs = [[I, J] for I in range(2 ** d) for J in range(2 ** d)]
+    if not case.get("elements"):
+        # every sampled pair in both orders on the same algebra (the lazily filled table of d >= 7 is state)
+        pairs = [p_ for I, J in pairs for p_ in ([I, J], [J, I])]
     for I, J in pairs:
         got = _elem(_call(lambda: B(I) * B(J), "blade-product", "gp", f"{ref.bin2name[I]}*{ref.bin2name[J]}"))
         s = ref.T(I, J)
